@@ -1,7 +1,8 @@
 PROP = dict(
     id='C11', level='proof',
     pyvc=['contracts.c11'],
-    bounded=None,
+    bounded='bounded.c11',
+    bounded_budget=dict(quick=45, thorough=420),
     assumptions=['A-IO: optparse and file loading are outside the deductive part (bounded tier)', 'A-LOG: logging calls dropped'],
     trusted_base=['z3 5.1 / cvc5 1.0.3', 'pyvc symbolic executor (DESIGN.md §2)'],
     manifest=dict(text='Proof: check_link_integrity and check_association_integrity are proved, for every model and every partner count, to return the number of (instance, end) pairs outside the end multiplicity, by loop invariants over recursive spec functions.',
